@@ -113,7 +113,8 @@ CHECKS = {
               'independent computation (exact integer arithmetic for the '
               'CPM thresholds, CPM == 1 boundary entries generated on '
               'purpose); differential across partitions into files / chunks '
-              '/ workers / encodings',
+              '/ workers / encodings; forced class: few cells x more than '
+              '65 536 genes stored as CSC / CSR / dense',
               'Every (cluster, gene) entry of every generated file.',
               'DESIGN.md section 2 C09', _BASE_NOTE),
     'C10': _e('exploration',
@@ -124,7 +125,9 @@ CHECKS = {
               'rejected (or behave as the tree they denote) through the dict, '
               'string, JSON-file and statistics-file entry points, with and '
               'without reference cells; transformations also on trees that '
-              'were never serialised',
+              'were never serialised; regrouped twin taxonomies (same level, '
+              'node and leaf names, one level re-parented) alive in one '
+              'process must each answer from their own structure',
               'Exhaustive over all shapes with <=4 levels and <=6 leaves in '
               'the thorough tier, sampled beyond.',
               'DESIGN.md section 2 C10', _BASE_NOTE),
@@ -150,7 +153,8 @@ CHECKS = {
               'model\'s leaf pairs) checks duplicates, query membership, '
               'usefulness and the per-pair coverage bound min(2 x target, '
               'available); differential over worker count and '
-              'large-parent threshold',
+              'large-parent threshold; forced classes: a 256-pair parent, '
+              'pairs with 256 / 258 / 512 markers in one direction',
               'Every (parent, leaf pair) of every generated table.',
               'DESIGN.md section 2 C12', _BASE_NOTE),
     'C13': _e('exploration',
@@ -159,7 +163,8 @@ CHECKS = {
               'workers) and file-level operations run on matrices whose '
               'stored values are unique ids; outputs compared with scipy\'s '
               'canonical transpose / the same operation in memory; '
-              'bounded-exhaustive 0/1 patterns up to 4x4',
+              'bounded-exhaustive 0/1 patterns up to 4x4; layer copies from '
+              'dense layers in every HDF5 chunk layout',
               'Thorough tier enumerates all 65 536 4x4 patterns and all '
               'smaller shapes; every indices_slice sub-range of each.',
               'DESIGN.md section 2 C13', _BASE_NOTE),
@@ -246,7 +251,8 @@ CHECKS = {
               'HDF5 metadata and the log file scanned for the tokens and for '
               'absolute path-like substrings that exist on the host; directory '
               'layouts incl. paths beyond 255 characters and un-normalised '
-              'spellings (// and /./)',
+              'spellings (// and /./); a third of the runs without a '
+              'separate log file',
               'All recorded strings of every generated run scanned; counts '
               'of strings and sanitised path lines in the evidence.',
               'DESIGN.md section 2 C20', _BASE_NOTE),
